@@ -1344,6 +1344,14 @@ class Interp:
                 if short(gen) == "append" and isinstance(o, list):
                     del o[:]
                 return ()
+            if isinstance(v, HSet) and isinstance(o, (list, tuple, HSet)):
+                for x_ in (self.hash_order(list(o.items)) if isinstance(o, HSet) else o):
+                    v.add(x_.get() if isinstance(x_, Ref) else x_)
+                return ()
+            if isinstance(v, HMap) and isinstance(o, (list, tuple, HMap)):
+                for kv in (self.hash_order(list(o.items())) if isinstance(o, HMap) else o):
+                    v.put(kv[0], kv[1])
+                return ()
             if isinstance(v, str) and isinstance(o, (list, tuple, str)) and all(isinstance(x, str) for x in o):
                 # String::extend(chars / strs)
                 self.assign(args[0], v + "".join(o), env, depth)
